@@ -7,9 +7,11 @@ def main():
     ok1, n1, _, _ = extract.extract_toggle_vocab()
     ok2, n2 = extract.extract_mt_sinks()
     ok3, n3 = extract.extract_hash_combine()
+    ok4, n4 = extract.extract_positional_index()
     print(n1)
     print(n2)
     print(n3)
+    print(n4)
     return 0
 
 
